@@ -128,6 +128,23 @@ func runC14(ctx *h.Ctx) int {
 				}
 				c := &spec.Cmd{ID: prog.NewID(), Name: g.Name("applymovement"), Args: []*spec.Arg{{Toks: []string{"1"}}, {Moves: c14List(k, g, true, 8, 0, false)}}}
 				script.Body.Stmts = append(script.Body.Stmts, &spec.CmdStmt{Cmd: c})
+				if k.R.IntN(8) == 0 {
+					// a second list that differs from a plain one in one place only, where `delay_16` stands against
+					// `delay_1 * 6` (name + count spell the same characters): different content, two blocks
+					pair := [][3]string{{"delay_16", "delay_1", "6"}, {"walk_12", "walk_1", "2"}, {"walk_12", "walk_", "12"}, {"jump_22", "jump_2", "2"}}[k.R.IntN(4)]
+					common := []string{"walk_left", "face_player", "walk_up"}[:1+k.R.IntN(3)]
+					mk := func(mid *spec.ListElem) []*spec.ListElem {
+						var es []*spec.ListElem
+						for _, nm := range common {
+							es = append(es, &spec.ListElem{ID: prog.NewID(), Name: nm})
+						}
+						return append(es, mid, &spec.ListElem{ID: prog.NewID(), Name: "walk_down"})
+					}
+					a := &spec.Cmd{ID: prog.NewID(), Name: g.Name("applymovement"), Args: []*spec.Arg{{Toks: []string{"2"}}, {Moves: mk(&spec.ListElem{ID: prog.NewID(), Name: pair[0]})}}}
+					b := &spec.Cmd{ID: prog.NewID(), Name: g.Name("applymovement"), Args: []*spec.Arg{{Toks: []string{"3"}}, {Moves: mk(&spec.ListElem{ID: prog.NewID(), Name: pair[1], Mult: pair[2]})}}}
+					script.Body.Stmts = append(script.Body.Stmts, &spec.CmdStmt{Cmd: a}, &spec.CmdStmt{Cmd: b})
+					k.Count("files_with_lists_spelled_alike", 1)
+				}
 			}
 		}
 		rp, rerr := spec.Resolve(prog, prog.Switches)
